@@ -5,6 +5,8 @@ use vstd::prelude::*;
 use std::collections::VecDeque;
 use std::fs::File;
 use vstd::std_specs::iter::IteratorSpec;
+use vstd::std_specs::ops::{AddSpec, SubSpec};
+use vstd::std_specs::cmp::PartialOrdSpec;
 use crate::packet::{Packet, TransferOption, OptionType, ErrorCode, Opcode};
 
 verus! {
@@ -94,6 +96,53 @@ pub assume_specification<T, A: core::alloc::Allocator, R: core::ops::RangeBounds
     requires 0 <= rb_start(range) <= rb_end(range) <= old(v)@.len(),
     ensures final(v)@ == old(v)@.subrange(0, rb_start(range)) + old(v)@.subrange(rb_end(range), old(v)@.len() as int);
 
+// ---- clock model (monotonic clock; all relations uninterpreted) -----------------------------------
+/// length of a duration in nanoseconds
+pub uninterp spec fn dur_nanos(d: std::time::Duration) -> nat;
+/// `t` was returned by a reading of the clock
+pub uninterp spec fn is_clock_reading(t: std::time::Instant) -> bool;
+/// `d` is a value `t.elapsed()` returned
+pub uninterp spec fn elapsed_of(t: std::time::Instant, d: std::time::Duration) -> bool;
+pub uninterp spec fn instant_sub(t: std::time::Instant, d: std::time::Duration) -> std::time::Instant;
+
+pub assume_specification[ std::time::Instant::now ]() -> (t: std::time::Instant)
+    ensures is_clock_reading(t);
+
+/// ASSUMPTION (monotonic clock): what `elapsed` returns for an instant that lies `d` before some clock
+/// reading is at least `d`.
+pub assume_specification[ std::time::Instant::elapsed ](t: &std::time::Instant) -> (e: std::time::Duration)
+    ensures
+        elapsed_of(*t, e),
+        forall|b: std::time::Instant, d: std::time::Duration| is_clock_reading(b) && *t == #[trigger] instant_sub(b, d) ==> dur_nanos(e) >= dur_nanos(d);
+
+pub open spec fn dur_max() -> nat { 18446744073709551615 * 1000000000 + 999999999 }
+
+/// ASSUMPTION: `Duration + Duration` panics only on overflow of the representable range and adds the lengths.
+pub broadcast axiom fn axiom_duration_add(a: std::time::Duration, b: std::time::Duration)
+    ensures
+        #![trigger a.add_req(b)] #![trigger a.add_spec(b)]
+        (dur_nanos(a) + dur_nanos(b) <= dur_max()) ==> a.add_req(b),
+        <std::time::Duration as vstd::std_specs::ops::AddSpec<std::time::Duration>>::obeys_add_spec(),
+        dur_nanos(a.add_spec(b)) == dur_nanos(a) + dur_nanos(b);
+
+/// ASSUMPTION (platform): subtracting up to 2^40 seconds from a clock reading does not leave the
+/// representable range of `Instant` (true on Linux, where Instant is a signed timespec).
+pub broadcast axiom fn axiom_instant_sub(t: std::time::Instant, d: std::time::Duration)
+    ensures
+        #![trigger t.sub_req(d)] #![trigger t.sub_spec(d)]
+        (is_clock_reading(t) && dur_nanos(d) <= 0x100_0000_0000 * 1000000000) ==> t.sub_req(d),
+        <std::time::Instant as vstd::std_specs::ops::SubSpec<std::time::Duration>>::obeys_sub_spec(),
+        t.sub_spec(d) == instant_sub(t, d);
+
+/// ASSUMPTION: `Duration` is ordered by its length.
+pub broadcast axiom fn axiom_duration_ord(a: std::time::Duration, b: std::time::Duration)
+    ensures
+        <std::time::Duration as vstd::std_specs::cmp::PartialOrdSpec<std::time::Duration>>::obeys_partial_cmp_spec(),
+        #[trigger] a.partial_cmp_spec(&b) == Some(
+            if dur_nanos(a) < dur_nanos(b) { core::cmp::Ordering::Less }
+            else if dur_nanos(a) == dur_nanos(b) { core::cmp::Ordering::Equal }
+            else { core::cmp::Ordering::Greater });
+
 /// ASSUMPTION: `to_vec` copies the slice.  Stated as equality of views, which is exact for `Copy`
 /// element types; the crate calls it only on `[u8]` and `[TransferOption]` (both `Copy`).
 pub assume_specification<T: Clone>[ <[T]>::to_vec ](s: &[T]) -> (r: Vec<T>)
@@ -182,6 +231,17 @@ pub tracked struct Trace {
     pub ghost last: Option<PktV>,
     /// consecutive receive attempts that brought nothing usable (drives the retry bound)
     pub ghost fails: nat,
+    /// sender only: the window changed (start of transfer or an acknowledgement inside the window) since the last transmission
+    pub ghost fresh: bool,
+    /// sender only: value returned by the most recent clock reading, and the length of `ev` at that moment
+    pub ghost last_now: std::time::Instant,
+    pub ghost now_mark: nat,
+    /// sender only: state at the most recent receive attempt (front block number, buffered pieces, length of `ev`)
+    pub ghost snap_bn: u16,
+    pub ghost snap_elems: Seq<Seq<u8>>,
+    pub ghost snap_ev_len: nat,
+    /// a receive attempt has been made in the current loop iteration and is being handled
+    pub ghost handling: bool,
     /// receiver only: payloads accepted so far (in-sequence DATA blocks, each once)
     pub ghost accepted: Seq<Seq<u8>>,
     /// receiver only: an accepted block was shorter than the block size (transfer complete)
@@ -255,6 +315,37 @@ pub proof fn lemma_window_events_partial(s: Seq<Seq<u8>>, bn: u16, n: nat, i: in
     assert(c.subrange(0, (a.len() + k) as int) =~= c.subrange(0, b.len() as int).subrange(0, (a.len() + k) as int));
 }
 
+/// appending (a prefix of) one transmission of an aligned window keeps every DATA datagram equal to its slice of the file
+pub proof fn lemma_batch_ok(ev: Seq<PktV>, p: Seq<PktV>, from: int, data: Seq<u8>, cs: nat, elems: Seq<Seq<u8>>, bn: u16, n: nat, taken: nat)
+    requires
+        cs > 0, 0 <= from <= ev.len(),
+        all_sender_ok(ev, from, data, cs),
+        is_prefix(p, window_events(elems, bn, n)),
+        elems.len() <= taken, taken <= nblocks(data.len(), cs),
+        bn == wire(taken - elems.len() + 1),
+        forall|i: int| 0 <= i < elems.len() ==> #[trigger] elems[i] == piece(data, cs, (taken - elems.len() + i) as nat),
+    ensures
+        all_sender_ok(ev + p, from, data, cs),
+{
+    let w = window_events(elems, bn, n);
+    assert forall|k: int| from <= k < (ev + p).len() implies sender_ev_ok(#[trigger] (ev + p)[k], data, cs) by {
+        if k < ev.len() {
+            assert((ev + p)[k] == ev[k]);
+        } else {
+            let m = k - ev.len();
+            assert((ev + p)[k] == p[m]);
+            assert(p[m] == w.subrange(0, p.len() as int)[m]);
+            lemma_window_events_members(elems, bn, n, m);
+            let i = choose|i: int| 0 <= i < elems.len() && w[m] == #[trigger] data_ev(bn, i, elems[i]);
+            let j = taken - elems.len() + 1 + i;
+            lemma_wire_add(taken - elems.len() + 1, i);
+            assert(1 <= j <= nblocks(data.len(), cs));
+            assert(elems[i] == piece(data, cs, (j - 1) as nat));
+            assert(wire(bn + i) == wire(j));
+        }
+    }
+}
+
 pub proof fn lemma_rep_prefix(x: PktV, n: nat, p: Seq<PktV>)
     requires is_prefix(p, rep(x, n)),
     ensures p == rep(x, p.len()), p.len() <= n,
@@ -272,6 +363,90 @@ pub proof fn lemma_wire_succ(bn: u16, i: int)
     requires i >= 0,
     ensures wire(bn + i + 1) == wire(wire(bn + i) + 1), wire(bn + 0) == bn,
 {
+}
+
+/// distance on the wire from block number `bn` forward to `a`
+pub open spec fn wdist(a: u16, bn: u16) -> int { (a as int - bn as int) % 65536 }
+
+/// SPECIFICATION of the sender's retry counter: consecutive receive attempts that brought neither an
+/// acknowledgement inside the window (resets it) nor an ERROR / acknowledgement outside it (unchanged).
+pub open spec fn sender_fails_next(f: nat, v: Option<PktV>, bn: u16, len: nat) -> nat {
+    match v {
+        Some(PktV::Ack(a)) => if wdist(a, bn) < len { 0 } else { f },
+        Some(PktV::Error { .. }) => f,
+        _ => f + 1,
+    }
+}
+
+/// an acknowledgement that does not acknowledge any block of the current window (duplicate / stale / bogus)
+pub open spec fn is_stale_ack(v: Option<PktV>, bn: u16, len: nat) -> bool {
+    len > 0 && (v matches Some(PktV::Ack(a)) && wdist(a, bn) >= len)
+}
+
+/// SPECIFICATION of what a receive attempt does to the sender's ghost state (woven behind every receive of `send_file`)
+pub open spec fn sender_after_recv(t: Trace, v: Option<PktV>, bn: u16, elems: Seq<Seq<u8>>) -> Trace {
+    Trace {
+        last: v,
+        fails: sender_fails_next(t.fails, v, bn, elems.len()),
+        fresh: t.fresh || (v matches Some(PktV::Ack(a)) && wdist(a, bn) < elems.len()),
+        snap_bn: bn, snap_elems: elems, snap_ev_len: t.ev.len(),
+        handling: true,
+        ..t
+    }
+}
+
+pub open spec fn is_error_pkt(v: Option<PktV>) -> bool { v matches Some(PktV::Error { .. }) }
+
+/// SPECIFICATION (C01/C07): what the sending side may emit for a file `data` with block size `cs`:
+/// DATA j carries wire(j) and exactly the bytes of piece j-1, 1 <= j <= nblocks; otherwise only ERROR.
+pub open spec fn sender_ev_ok(e: PktV, data: Seq<u8>, cs: nat) -> bool {
+    match e {
+        PktV::Data { block_num, data: d } => exists|j: int| 1 <= j <= nblocks(data.len(), cs) && block_num == wire(j) && d == #[trigger] piece(data, cs, (j - 1) as nat),
+        PktV::Error { .. } => true,
+        _ => false,
+    }
+}
+
+pub proof fn lemma_window_events_members(elems: Seq<Seq<u8>>, bn: u16, n: nat, k: int)
+    requires 0 <= k < window_events(elems, bn, n).len(),
+    ensures exists|i: int| 0 <= i < elems.len() && window_events(elems, bn, n)[k] == #[trigger] data_ev(bn, i, elems[i]),
+    decreases elems.len(),
+{
+    if elems.len() > 0 {
+        let pre = window_events(elems.drop_last(), bn, n);
+        if k < pre.len() {
+            lemma_window_events_members(elems.drop_last(), bn, n, k);
+            let i = choose|i: int| 0 <= i < elems.drop_last().len() && pre[k] == #[trigger] data_ev(bn, i, elems.drop_last()[i]);
+            assert(elems.drop_last()[i] == elems[i]);
+            assert(window_events(elems, bn, n)[k] == data_ev(bn, i, elems[i]));
+        } else {
+            let i = elems.len() - 1;
+            assert(window_events(elems, bn, n)[k] == data_ev(bn, i, elems[i]));
+        }
+    }
+}
+
+pub proof fn lemma_window_events_len(elems: Seq<Seq<u8>>, bn: u16, n: nat)
+    ensures window_events(elems, bn, n).len() == elems.len() * n,
+    decreases elems.len(),
+{
+    if elems.len() > 0 {
+        lemma_window_events_len(elems.drop_last(), bn, n);
+        lemma_mul_step((elems.len() - 1) as nat, n);
+    } else {
+        lemma_mul_step(0, n);
+    }
+}
+
+pub proof fn lemma_wire_add(base: int, d: int)
+    requires base >= 0, d >= 0,
+    ensures wire(wire(base) + d) == wire(base + d), wire(wire(base + d) + 1) == wire(base + d + 1),
+        d < 65536 ==> wdist(wire(base + d), wire(base)) == d,
+{
+}
+
+pub open spec fn all_sender_ok(ev: Seq<PktV>, from: int, data: Seq<u8>, cs: nat) -> bool {
+    forall|k: int| from <= k < ev.len() ==> sender_ev_ok(#[trigger] ev[k], data, cs)
 }
 
 /// number of blocks a transfer of `len` bytes has with block size `cs` (the last one is short, possibly empty)
@@ -337,6 +512,14 @@ pub proof fn lemma_step(t: nat, cs: nat)
     assert(cs * (t + 1) == (t + 1) * cs) by(nonlinear_arith);
     vstd::arithmetic::div_mod::lemma_div_multiples_vanish(t as int, cs as int);
     vstd::arithmetic::div_mod::lemma_div_multiples_vanish((t + 1) as int, cs as int);
+}
+
+pub proof fn lemma_div_lower(len: nat, t: nat, cs: nat)
+    requires cs > 0, t * cs <= len,
+    ensures t <= len / cs,
+{
+    vstd::arithmetic::div_mod::lemma_div_is_ordered((t * cs) as int, len as int, cs as int);
+    lemma_step(t, cs);
 }
 
 pub proof fn lemma_div_bounds(len: nat, t: nat, cs: nat)
